@@ -878,7 +878,7 @@ func init() {
 			return 320
 		},
 		ChunkSize: 4,
-		Rule:      "each case produces a Persistence by really running a client against the reference broker (0-5 at-least-once PUBLISH pending, 0-3 exactly-once transfers at the PUBREL stage, 0-4 behind them at the PUBLISH stage, 0-2 inbound exactly-once markers whose PUBREC the broker got or missed; 1 in 8 positioned at the 14-bit identifier wrap by completing 16,38x publishes first) and then damages it: EVERY single record x {one byte altered, truncated (0, 1, 11, 12, half, all but one byte), removed}, a stray junk entry under an unused key, and PRNG-drawn subsets of up to k records (quick k=2, thorough k=3) with strays and, on mqtt.FileSystem (1 in 5), spool leftovers (longer than what gets saved next, under the records at hand and under the identifiers that come next) and foreign files. Each damaged store is adopted and run against the broker state of the same instant; a third of the runs are stopped again with transfers pending and adopted a second time. Oracle: no panic, no fatal; the client connects (as the session's owner); the packets between CONNECT and the end of the resend are byte-equal to undamaged stored records, once each, in acceptance order per level; every unusable or abandoned (valid but not resumed) record is covered by a warning (record numbers and ranges parsed from the warning texts); new publishes are accepted on identifiers no resumed transfer holds; a probe message and every pending inbound handshake get through (no ReadSlices error on the healthy connection); everything resumed or new completes (records removed, exchanges closed) or, after a second stop, is resumed by the next AdoptSession. Non-trivial: >= 1 record damaged in a store of >= 2 records; distinct by base shape, generation and the multiset of (record kind, operator).",
+		Rule:      "each case produces a Persistence by really running a client against the reference broker (0-5 at-least-once PUBLISH pending, 0-3 exactly-once transfers at the PUBREL stage, 0-4 behind them at the PUBLISH stage, 0-2 inbound exactly-once markers whose PUBREC the broker got or missed; 1 in 8 with nothing outbound at all, markers only; 1 in 8 positioned at the 14-bit identifier wrap by completing 16,38x publishes first) and then damages it: EVERY single record x {one byte altered, truncated (0, 1, 11, 12, half, all but one byte), removed}, a stray junk entry under an unused key, and PRNG-drawn subsets of up to k records (quick k=2, thorough k=3) with strays and, on mqtt.FileSystem (1 in 5), spool leftovers (longer than what gets saved next, under the records at hand and under the identifiers that come next) and foreign files. Each damaged store is adopted and run against the broker state of the same instant; a third of the runs are stopped again with transfers pending and adopted a second time. Oracle: no panic, no fatal; the client connects (as the session's owner); the packets between CONNECT and the end of the resend are byte-equal to undamaged stored records, once each, in acceptance order per level; every unusable or abandoned (valid but not resumed) record is covered by a warning (record numbers and ranges parsed from the warning texts); new publishes are accepted on identifiers no resumed transfer holds; a probe message and every pending inbound handshake get through (no ReadSlices error on the healthy connection); everything resumed or new completes (records removed, exchanges closed) or, after a second stop, is resumed by the next AdoptSession. Non-trivial: >= 1 record damaged in a store of >= 2 records; distinct by base shape, generation and the multiset of (record kind, operator).",
 		Assumptions: []string{
 			"no record is forged with a valid checksum; truncations keep a prefix of the original bytes",
 			"the broker state is that of the instant of the stop; a conforming broker rejects an empty client identifier without clean session [MQTT-3.1.3-8]",
@@ -888,6 +888,10 @@ func init() {
 			n1, nr, n2, nm := c.Rng.Intn(6), c.Rng.Intn(4), c.Rng.Intn(5), c.Rng.Intn(3)
 			if n1+nr+n2 < 2 {
 				n1 += 2
+			}
+			if c.Case%8 == 3 {
+				// nothing outbound pending: reception markers only
+				n1, nr, n2, nm = 0, 0, 0, 1+c.Rng.Intn(2)
 			}
 			wrap := c.Case%8 == 5
 			base := c16Base(c, n1, nr, n2, nm, wrap)
